@@ -57,10 +57,11 @@ def run(ctx):
         for i, b in enumerate(behs):
             qq = sched.SCALES[(i + ctx.seed) % 4]
             seed = ctx.seed * 7919 + i
-            rn = sched.replay(cfg, b, q=qq, seed=seed)
+            style = sched.STYLES[(i // 4) % len(sched.STYLES)]     # how the settings reach the Doist / doers pre-wound elsewhere
+            rn = sched.replay(cfg, b, q=qq, seed=seed, style=style)
             flav = rn["flav"]
             fscript = {d: v for d, v in b["script"].items() if cfg["kind"][d] == "leaf"}
-            rf = sched.replay(fcfg, {"script": fscript}, q=qq, seed=seed, flavours=flav)
+            rf = sched.replay(fcfg, {"script": fscript}, q=qq, seed=seed, flavours=flav, style=style)
             ctx.traces += 2
             ctx.case((name, big, json.dumps(fscript, sort_keys=True)),
                      {"shape": name, "script": fscript, "leaf_log_head": leafproj(cfg, b["log"])[:6]} if i % 211 == 5 else None)
